@@ -3,7 +3,7 @@
    PeerManager::new(reserved, max) and ANY sequence of connect / identify / disconnect /
    app-score / decay / gossip-score events (Proofs31.v).  Scores are exact dyadic numbers with
    IEEE round-to-nearest-even to 53 bits (finite values in the normal range). *)
-From FC Require Import P2P.Model P2P.ProofsDy P2P.Proofs31 P2P.ProofsChk.
+From FC Require Import P2P.Model P2P.ProofsDy P2P.Proofs31 P2P.ProofsChk P2P.Proofs32.
 Open Scope N_scope.
 
 (* the number of connected non-reserved peers never exceeds the limit *)
@@ -87,3 +87,61 @@ Theorem trace_checker_sound : forall cf reserved max ops obs,
   trace_okb cf reserved max ops obs = true <-> TraceSpec cf reserved max ops obs.
 Proof. exact trace_okb_iff. Qed.
 Print Assumptions trace_checker_sound.
+
+(* ======================================================================================= *)
+(* C32.  [db : N -> option N] is ANY database content (value per height); the database
+   answers a range all-or-nothing ([fetch_of]); the cache may lose ANY subset of its entries
+   after every request ([keep] predicates).                                               *)
+
+(* served_eq_db: for every database, every consistent cache, and every history of range
+   requests with an arbitrary eviction after each, every answer is the database's answer for
+   the whole range. *)
+Theorem served_eq_db : forall db reqs c, consistent db c ->
+  serve db c reqs = map (fun q => fetch_of db (fst (fst q)) (snd (fst q))) reqs.
+Proof. exact served_eq_db_all. Qed.
+Print Assumptions served_eq_db.
+
+(* one request: the answer, and consistency of the cache is preserved *)
+Theorem served_one_and_consistency_preserved : forall db c a b, consistent db c ->
+  fst (fst (get_from_cache_or_db c (fetch_of db) a b)) = fetch_of db a b /\
+  consistent db (snd (fst (get_from_cache_or_db c (fetch_of db) a b))).
+Proof. exact get_from_cache_or_db_spec. Qed.
+Print Assumptions served_one_and_consistency_preserved.
+
+(* oversize_refused (the checks of handle_db_request / handle_full_transactions_request as
+   modelled): a request is refused exactly when it asks for more heights / transactions than
+   allowed.  PARTIAL: the tie of these two checks to the running Task is not exercised. *)
+Theorem oversize_refused_partial : forall a b max_len n max_txs,
+  (range_too_large a b max_len = true <-> max_len < b - a) /\
+  (too_many_txs n max_txs = true <-> max_txs < n).
+Proof. exact (fun a b ml n mt => conj (range_too_large_iff a b ml) (too_many_txs_iff n mt)). Qed.
+Print Assumptions oversize_refused_partial.
+
+(* request_roundtrip: every request (u32 range bounds, 32-byte ids) decodes from its postcard
+   bytes, whatever follows them; and it is read back under any size cap it fits. *)
+Theorem request_roundtrip : forall m rest, wf_request m ->
+  decode_request (encode_request m ++ rest) = Some m.
+Proof. exact request_roundtrip_all. Qed.
+Print Assumptions request_roundtrip.
+
+Theorem request_read_within_cap : forall m max_size, wf_request m ->
+  N.of_nat (length (encode_request m)) <= max_size ->
+  read_request max_size (encode_request m) = Some m.
+Proof. exact read_request_fits. Qed.
+Print Assumptions request_read_within_cap.
+
+(* response_roundtrip (parametric in the payload codec): with any payload codec that has a
+   round trip, every V2 response that can be written decodes to itself. *)
+Theorem response_roundtrip : forall (P : Type) (enc_p : P -> list N) (dec_p : list N -> option (P * list N)),
+  (forall p rest, dec_p (enc_p p ++ rest) = Some (p, rest)) ->
+  forall m bs, encode_v2 P enc_p m = Some bs -> decode_v2 P dec_p bs = Some m.
+Proof. exact response_roundtrip_v2. Qed.
+Print Assumptions response_roundtrip.
+
+(* under the legacy protocol a payload survives and every error code becomes
+   ProtocolV1EmptyResponse (0) *)
+Theorem response_v1_conversion : forall (P : Type) v (p : P) c,
+  v2_of_v1 (v1_of_v2 (v, ROk p)) = (v, ROk p) /\
+  v2_of_v1 (v1_of_v2 (v, @RErr P c)) = (v, RErr 0).
+Proof. exact (fun P v p c => conj (v1_transport_ok P v p) (v1_transport_err P v c)). Qed.
+Print Assumptions response_v1_conversion.
